@@ -314,15 +314,22 @@ pub struct ExploreCfg {
 	pub time_cap: Duration,
 	/// a cap hit is not reported (the caller retries with a bound)
 	pub soft_cap: bool,
+	/// worker threads (0 = as many as the reporter's jobs)
+	pub threads: usize,
 }
 
 /// Explore without a deviation bound if the whole tree has at most `cap` executions, else with `fallback_bound`.
+/// Single-threaded complete exploration (for use inside a parallel sweep over many small scenarios).
+pub fn explore_small<S: Scenario>(s: &S, rep: &Reporter, cap: u64, recheck_every: u64) -> ExploreStats {
+	explore(s, &ExploreCfg { bound: None, recheck_every, max_execs: cap, time_cap: Duration::from_secs(600), soft_cap: false, threads: 1 }, rep)
+}
+
 pub fn explore_auto<S: Scenario>(s: &S, rep: &Reporter, cap: u64, fallback_bound: usize, recheck_every: u64, time_cap: Duration) -> ExploreStats {
-	let st = explore(s, &ExploreCfg { bound: None, recheck_every, max_execs: cap, time_cap, soft_cap: true }, rep);
+	let st = explore(s, &ExploreCfg { bound: None, recheck_every, max_execs: cap, time_cap, soft_cap: true, threads: 0 }, rep);
 	if st.exhausted {
 		return st;
 	}
-	explore(s, &ExploreCfg { bound: Some(fallback_bound), recheck_every, max_execs: cap * 20, time_cap: time_cap * 4, soft_cap: false }, rep)
+	explore(s, &ExploreCfg { bound: Some(fallback_bound), recheck_every, max_execs: cap * 20, time_cap: time_cap * 4, soft_cap: false, threads: 0 }, rep)
 }
 
 #[derive(Debug, Default, Clone)]
@@ -360,7 +367,7 @@ pub fn explore<S: Scenario>(s: &S, cfg: &ExploreCfg, rep: &Reporter) -> ExploreS
 	let name = s.name();
 
 	std::thread::scope(|sc| {
-		for _ in 0..rep.jobs.max(1) {
+		for _ in 0..(if cfg.threads > 0 { cfg.threads } else { rep.jobs.max(1) }) {
 			sc.spawn(|| {
 				loop {
 					let item = {
